@@ -64,6 +64,7 @@ type Frame struct {
 	bindings map[ssa.Value]*Val // free variables of closures
 	debugRefs []*ssa.DebugRef
 	oblPrefix string
+	variant0  string
 	ghosts    []*Val
 	namedVars map[ssa.Value]bool
 	topNames  map[string]*Val
@@ -457,11 +458,21 @@ func (fr *Frame) loopHead(li *loopInfo, phis []*ssa.Phi) {
 			}
 		}
 	}
-	if ws.all {
+	if ws.all && li.declared == nil {
 		fr.vc.abstracted("loop " + name + " calls unknown code: all heaps havocked")
 		for _, h := range sortedKeys(fr.vc.heapSort) {
 			fr.vc.heapHavoc(fr.st, h)
 		}
+	}
+	if li.declared != nil {
+		// the declared locations are havocked even if no store to them is visible
+		// statically (calls through interfaces); everything else is checked at the latch
+		for h := range li.declared {
+			if _, ok := ws.heaps[h]; !ok {
+				ws.heaps[h] = fr.vc.heapSort[h]
+			}
+		}
+		ws.all = false
 	}
 	li.entryAlloc = fr.st.alloc
 	for _, h := range sortedKeys(ws.heaps) {
@@ -560,9 +571,19 @@ func (fr *Frame) loopLatch(li *loopInfo, from *ssa.BasicBlock) {
 		}
 	}
 	if li.declared != nil {
-		for _, h := range sortedKeys(li.headSt.heaps) {
+		all := map[string]bool{}
+		for h := range li.headSt.heaps {
+			all[h] = true
+		}
+		for h := range fr.st.heaps {
+			all[h] = true
+		}
+		for _, h := range sortedKeys(all) {
 			cur := fr.vc.heapGet(fr.st, h)
-			head := li.headSt.heaps[h]
+			head, okH := li.headSt.heaps[h]
+			if !okH {
+				head = fr.vc.heapInit(h)
+			}
 			if cur == head || strings.HasPrefix(h, "G$") || strings.HasPrefix(h, "RV$") || wholeDeclared(li, h) {
 				continue
 			}
